@@ -13,3 +13,4 @@ git -C /repo status --short | head -3
 cp $SAVE/*.json /verif/evidence/ 2>/dev/null
 rm -rf $SAVE
 python3 /verif/tools/gen_lean.py > /dev/null
+python3 /verif/tools/rs2lean.py > /dev/null
